@@ -35,6 +35,7 @@ mutual
           ∀ t : LNode, Sem E x c t ↔ ((m = true ∧ (c.loc == t.loc) = true) ∨ ∃ k ∈ childrenOf c, Sem E' x' k t)) :
       ∀ (n : Node), n.clean = true → ∀ (loc : List Nat) (E : α) (x : X) (rest : List α), Ok E x →
         (runOne step (E :: rest) n.flatten).2 = E :: rest ∧
+        okVals (runOne step (E :: rest) n.flatten).1 (eventLocs n loc) ∧
         ∀ t : LNode, selB (runOne step (E :: rest) n.flatten).1 (eventLocs n loc) t.loc = true ↔ Sem E x ⟨loc, n⟩ t
     | .elem tg ats ks, hcl, loc, E, x, rest, hE => by
         obtain ⟨E', x', m, hE', hs, hsem⟩ := hvisit E x hE ⟨loc, .elem tg ats ks⟩ hcl rest
@@ -44,9 +45,13 @@ mutual
         rw [hs]
         simp only []
         rw [hk.1]
-        refine ⟨by simp [runOne, hend], fun t => ?_⟩
+        refine ⟨by simp [runOne, hend], ?_, fun t => ?_⟩
+        · simp only [okVals]
+          refine ⟨by cases m <;> simp, ?_⟩
+          rw [okVals_append _ _ _ _ (by rw [runOne_length, eventLocsList_length])]
+          exact ⟨hk.2.1, by simp [runOne, hend, okVals]⟩
         rw [selB_cons, selB_append _ _ _ _ (by rw [runOne_length, eventLocsList_length]), hsem t]
-        simp only [Bool.or_eq_true, Bool.and_eq_true, hk.2 t, selB_none, Bool.false_eq_true, or_false]
+        simp only [Bool.or_eq_true, Bool.and_eq_true, hk.2.2 t, selB_none, Bool.false_eq_true, or_false]
         have hkids : childrenOf ⟨loc, .elem tg ats ks⟩ = kidsAt ks loc 0 := rfl
         rw [hkids]
         cases m <;> simp [Val.truthy]
@@ -56,7 +61,7 @@ mutual
         obtain ⟨hend', hstart⟩ := isEnd_of_not_startEnd hcl.1
         simp only [nodeEvent, hstart, Bool.false_eq_true, if_false] at hs
         simp only [Node.flatten, eventLocs, runOne, hs]
-        refine ⟨trivial, fun t => ?_⟩
+        refine ⟨trivial, by cases m <;> simp [okVals], fun t => ?_⟩
         rw [hsem t]
         have hkids : childrenOf ⟨loc, .leaf e⟩ = [] := rfl
         rw [hkids]
@@ -70,18 +75,21 @@ mutual
           ∀ t : LNode, Sem E x c t ↔ ((m = true ∧ (c.loc == t.loc) = true) ∨ ∃ k ∈ childrenOf c, Sem E' x' k t)) :
       ∀ (ks : List Node), cleanList ks = true → ∀ (loc : List Nat) (i : Nat) (E : α) (x : X) (rest : List α), Ok E x →
         (runOne step (E :: rest) (flattenList ks)).2 = E :: rest ∧
+        okVals (runOne step (E :: rest) (flattenList ks)).1 (eventLocsList ks loc i) ∧
         ∀ t : LNode, selB (runOne step (E :: rest) (flattenList ks)).1 (eventLocsList ks loc i) t.loc = true ↔
           ∃ k ∈ kidsAt ks loc i, Sem E x k t
-    | [], _, loc, i, E, x, rest, _ => by simp [Genshi.flattenList, eventLocsList, runOne, selB, matched, kidsAt]
+    | [], _, loc, i, E, x, rest, _ => by simp [Genshi.flattenList, eventLocsList, runOne, selB, matched, kidsAt, okVals]
     | k :: ks, hcl, loc, i, E, x, rest, hE => by
         simp only [cleanList, Bool.and_eq_true] at hcl
         have h1 := stackTree step Ok Sem hend hvisit k hcl.1 (loc ++ [i]) E x rest hE
         have h2 := stackTreeList step Ok Sem hend hvisit ks hcl.2 loc (i + 1) E x rest hE
         simp only [Genshi.flattenList, eventLocsList, runOne_append]
         rw [h1.1]
-        refine ⟨h2.1, fun t => ?_⟩
+        refine ⟨h2.1, ?_, fun t => ?_⟩
+        · rw [okVals_append _ _ _ _ (by rw [runOne_length, eventLocs_length])]
+          exact ⟨h1.2.1, h2.2.1⟩
         rw [selB_append _ _ _ _ (by rw [runOne_length, eventLocs_length])]
-        simp only [Bool.or_eq_true, h1.2 t, h2.2 t, kidsAt, List.zipIdx_cons, List.map_cons, List.mem_cons,
+        simp only [Bool.or_eq_true, h1.2.2 t, h2.2.2 t, kidsAt, List.zipIdx_cons, List.map_cons, List.mem_cons,
           exists_eq_or_imp]
 end
 
@@ -542,6 +550,139 @@ theorem visit (hok : FragsOk frags) (E : PEntry) (rw : List Event) (hE : EOk ns 
         constructor
         · rintro ⟨f, hf, h⟩; rw [hfrag] at hf; cases hf; exact h
         · intro h; exact ⟨frag, hfrag, h⟩
+
+/-- the whole element tree, once the first event is dealt with -/
+theorem rootRun (hok : FragsOk frags) (tag : QName) (attrs : AttrList) (kids : List Node) (hcl : cleanList kids = true)
+    (E' : PEntry) (rw' : List Event) (m : Bool) (hE' : EOk ns frags E' rw')
+    (hroot : pStep (some frags) false ns [] (.start tag attrs) = ([E'], if m then .bool true else .none)) :
+    okVals (runOne (pStep (some frags) false ns) [] (Node.elem tag attrs kids).flatten).1
+        (eventLocs (.elem tag attrs kids) []) ∧
+    ∀ t : LNode, selB (runOne (pStep (some frags) false ns) [] (Node.elem tag attrs kids).flatten).1
+        (eventLocs (.elem tag attrs kids) []) t.loc = true ↔
+      ((m = true ∧ (([] : List Nat) == t.loc) = true) ∨ ∃ k ∈ kidsAt kids [] 0, ESem ns xvs frags E' rw' k t) := by
+  have hk := stackTreeList (pStep (some frags) false ns) (EOk ns frags) (ESem ns xvs frags)
+    (fun st tg => pStep_end ns frags false st tg)
+    (fun E x hE c hc rest => visit ns xvs frags hok E x hE c hc rest) kids hcl [] 0 E' rw' [] hE'
+  simp only [Node.flatten, eventLocs, runOne_cons, runOne_append]
+  rw [hroot]
+  simp only []
+  rw [hk.1]
+  refine ⟨?_, fun t => ?_⟩
+  · simp only [okVals]
+    refine ⟨by cases m <;> simp, ?_⟩
+    rw [okVals_append _ _ _ _ (by rw [runOne_length, eventLocsList_length])]
+    exact ⟨hk.2.1, by simp [runOne, pStep_end, okVals]⟩
+  · rw [selB_cons, selB_append _ _ _ _ (by rw [runOne_length, eventLocsList_length])]
+    simp only [Bool.or_eq_true, Bool.and_eq_true, hk.2.2 t, selB_none, Bool.false_eq_true, or_false]
+    cases m <;> simp [Val.truthy]
+
+/-! ## The path a fragment list stands for -/
+
+/-- the steps of the first fragment: nothing (the path starts with `descendant::` /
+    `descendant-or-self::`), `self::t1/child::t2…`, or `child::t1/child::t2…` -/
+def headPath (f0 : Frag) : LocPath :=
+  if f0.selfBeginning then fragPath .self f0.tests else childChain f0.tests
+
+/-- the location path with these fragments -/
+def normPath : List Frag → LocPath
+  | [] => []
+  | f0 :: fs => headPath f0 ++ tailPath fs
+
+theorem skipEmpty_val (hok : FragsOk frags) (f0 : Frag) (h0 : frags[0]? = some f0) :
+    skipEmpty frags (frags.length + 1) 0 = if f0.tests = [] then 1 else 0 := by
+  by_cases hemp : f0.tests = []
+  · obtain ⟨f0', h0', hh⟩ := hok.head
+    rw [h0] at h0'; cases h0'
+    obtain ⟨_, h2⟩ := hh hemp
+    obtain ⟨f1, hf1⟩ : ∃ f1, frags[1]? = some f1 := ⟨frags[1], List.getElem?_eq_getElem (by omega)⟩
+    have hne1 := hok.tail 0 f1 hf1
+    obtain ⟨n, hn⟩ : ∃ n, frags.length = n + 1 := ⟨frags.length - 1, by omega⟩
+    have hi1 : f1.tests.isEmpty = false := by cases h : f1.tests <;> simp_all
+    simp only [hn, skipEmpty, h0, hemp, List.isEmpty_nil, if_true, hf1, hi1, Bool.false_eq_true, if_false, Nat.zero_add]
+  · have hi : f0.tests.isEmpty = false := by cases h : f0.tests <;> simp_all
+    simp [skipEmpty, h0, hemp, hi]
+
+/-- **SimplePathStrategy designates the XPath node set.**  For every fragment list as
+    `SimplePathStrategy.__init__` builds it (any number of fragments), relative mode and every
+    element tree: the matcher reports `None` / `True`, and `True` exactly at the nodes the
+    reference semantics reaches from the root through the path the fragments stand for. -/
+theorem simple_marks (hok : FragsOk frags) (tag : QName) (attrs : AttrList) (kids : List Node)
+    (hcl : cleanList kids = true) :
+    okVals (runOne (pStep (some frags) false ns) [] (Node.elem tag attrs kids).flatten).1
+        (eventLocs (.elem tag attrs kids) []) ∧
+    ∀ t : LNode, selB (runOne (pStep (some frags) false ns) [] (Node.elem tag attrs kids).flatten).1
+        (eventLocs (.elem tag attrs kids) []) t.loc = true ↔
+      reach ns xvs (normPath frags) ⟨[], .elem tag attrs kids⟩ t = true := by
+  obtain ⟨f0, h0, hhead⟩ := hok.head
+  have hsk := skipEmpty_val frags hok f0 h0
+  have hclr : (⟨[], .elem tag attrs kids⟩ : LNode).node.clean = true := by simpa [Node.clean] using hcl
+  have hkids : childrenOf ⟨[], .elem tag attrs kids⟩ = kidsAt kids [] 0 := rfl
+  have hnorm : normPath frags = headPath f0 ++ restPath frags 1 := by
+    cases frags with
+    | nil => simp at h0
+    | cons a fs => simp at h0; subst h0; rfl
+  rw [hnorm]
+  by_cases hemp : f0.tests = []
+  · obtain ⟨hsb0, h2⟩ := hhead hemp
+    rw [if_pos hemp] at hsk
+    obtain ⟨f1, hf1⟩ : ∃ f1, frags[1]? = some f1 := ⟨frags[1], List.getElem?_eq_getElem (by omega)⟩
+    have hne1 := hok.tail 0 f1 hf1
+    obtain ⟨g, G, hgG⟩ : ∃ g G, f1.tests = g :: G := by
+      cases hnt : f1.tests with
+      | nil => exact absurd hnt hne1
+      | cons g G => exact ⟨g, G, rfl⟩
+    have hR : restPath frags 1 = fragSteps f1 ++ restPath frags (1 + 1) := restPath_get frags 1 f1 hf1
+    have hhp : headPath f0 = [] := by simp [headPath, hsb0, hemp, childChain]
+    rw [hhp, List.nil_append, hR]
+    by_cases hsb : f1.selfBeginning = true
+    · obtain ⟨rw', m, o1, o2, o3⟩ :=
+        icOut_sem ns xvs frags hok ⟨[], .elem tag attrs kids⟩ hclr 1 0 [] f1 hf1 (Nat.le_refl _) (isMax_nil ns f1.tests)
+      have hroot := pStep_ic_root ns frags 1 (.start tag attrs) rfl rfl hsk (by omega) (by simp [hf1, hsb])
+      simp only [nodeEvent] at o1 o2 o3
+      rw [o2] at hroot
+      simp only [Event.isStart, if_true] at hroot
+      obtain ⟨r1, r2⟩ := rootRun ns xvs frags hok tag attrs kids hcl _ rw' m o1 hroot
+      refine ⟨r1, fun t => ?_⟩
+      rw [r2 t, ← hkids, ← o3 t, semIc_nil]
+      simp [fragSteps, hsb]
+    · have hsb' : f1.selfBeginning = false := by simpa using hsb
+      have hroot := pStep_skip_root ns frags 1 (.start tag attrs) rfl rfl hsk (by simp [hf1, hsb'])
+      have hd : decide (1 > 0) = true := by decide
+      rw [hd] at hroot
+      obtain ⟨r1, r2⟩ := rootRun ns xvs frags hok tag attrs kids hcl ⟨some (1, 0), true⟩ [] false
+        ⟨Nat.le_refl _, f1, hf1, isMax_nil ns f1.tests⟩ hroot
+      refine ⟨r1, fun t => ?_⟩
+      rw [r2 t]
+      simp only [fragSteps, hsb', Bool.false_eq_true, if_false, hgG, false_and, false_or, ESem]
+      rw [reach_descFrag, hkids]
+      simp only [List.any_eq_true, hf1, Option.some.injEq, exists_eq_left', semIc_nil, hgG]
+  · rw [if_neg hemp] at hsk
+    have hpos : 0 < f0.tests.length := by cases h : f0.tests <;> simp_all
+    obtain ⟨g, G, hgG⟩ : ∃ g G, f0.tests = g :: G := by
+      cases hnt : f0.tests with
+      | nil => exact absurd hnt hemp
+      | cons g G => exact ⟨g, G, rfl⟩
+    by_cases hsb0 : f0.selfBeginning = true
+    · obtain ⟨rw', m, o1, o2, o3⟩ := boundOut_sem ns xvs frags hok ⟨[], .elem tag attrs kids⟩ hclr f0 h0 0 hpos
+      have hroot := pStep_bound_root ns frags f0 h0 hpos (.start tag attrs) rfl rfl hsk hsb0
+      simp only [nodeEvent] at o1 o2 o3
+      rw [o2] at hroot
+      simp only [Event.isStart, if_true] at hroot
+      obtain ⟨r1, r2⟩ := rootRun ns xvs frags hok tag attrs kids hcl _ rw' m o1 hroot
+      refine ⟨r1, fun t => ?_⟩
+      rw [r2 t, ← hkids, ← o3 t]
+      simp [headPath, hsb0]
+    · have hsb0' : f0.selfBeginning = false := by simpa using hsb0
+      have hroot := pStep_skip_root ns frags 0 (.start tag attrs) rfl rfl hsk (by simp [h0, hsb0'])
+      have hd : decide (0 > 0) = false := by decide
+      rw [hd] at hroot
+      obtain ⟨r1, r2⟩ := rootRun ns xvs frags hok tag attrs kids hcl ⟨some (0, 0), false⟩ [] false
+        ⟨rfl, f0, h0, hpos⟩ hroot
+      refine ⟨r1, fun t => ?_⟩
+      rw [r2 t]
+      simp only [headPath, hsb0', Bool.false_eq_true, if_false, hgG, false_and, false_or, ESem]
+      rw [reach_chain_cons, hkids]
+      simp only [List.any_eq_true, h0, Option.some.injEq, exists_eq_left', hgG, List.drop_zero]
 
 end
 end Genshi.Path.Frags
